@@ -96,6 +96,13 @@ class Ctx:
                     with open(p, "rb") as fh:
                         self.src_hashes[os.path.relpath(p, self.pkg)] = hashlib.sha256(fh.read()).hexdigest()
         self.new_workdir("w0")
+        # PLY rewrites csvpath/scanning/parsetab.py on first use when its signature differs; do that
+        # once, before any parallel worker can see a half-written file
+        with open("warm.csv", "w") as fh:
+            fh.write("a\n1\n")
+        subprocess.run([sys.executable, "-c", "from csvpath import CsvPath; p=CsvPath(); p.parse('$warm.csv[*][yes()]'); p.collect()"],
+                       env=dict(os.environ, PYTHONPATH=self.pkg, CSVPATH_CONFIG_PATH="config.ini", PYTHONHASHSEED="0"),
+                       capture_output=True, timeout=120)
         os.environ[GUARD] = "1"
         os.environ["PYTHONHASHSEED"] = "0"
         sys.path.insert(0, self.pkg)
@@ -374,3 +381,28 @@ def ulit(s):
 
 def oulit(s):
     return "None" if s is None else f"(Some {ulit(s)})"
+
+
+class Capture:
+    """Redirect stdout (fd 1) to a temp file and stderr to /dev/null; .text has what was written."""
+
+    def __init__(self, path):
+        self.path = path
+        self.text = ""
+
+    def __enter__(self):
+        sys.stdout.flush(); sys.stderr.flush()
+        self.o, self.e = os.dup(1), os.dup(2)
+        self.f = os.open(self.path, os.O_WRONLY | os.O_CREAT | os.O_TRUNC)
+        self.n = os.open(os.devnull, os.O_WRONLY)
+        os.dup2(self.f, 1); os.dup2(self.n, 2)
+        return self
+
+    def __exit__(self, *a):
+        sys.stdout.flush(); sys.stderr.flush()
+        os.dup2(self.o, 1); os.dup2(self.e, 2)
+        os.close(self.o); os.close(self.e); os.close(self.n); os.close(self.f)
+        with open(self.path, "r", errors="replace") as fh:
+            self.text = fh.read()
+        os.remove(self.path)
+        return False
